@@ -25,16 +25,16 @@ VARIABLES l,       \* next line
           fired    \* number of Revert events judged
 vars == <<l, tx, snap, viol, fired>>
 
-Touch == [ Accounts      |-> {"AddBalance", "SubBalance", "SetNonce", "SetCode"},
-           Storage       |-> {"SetState"},
+Touch == [ Accounts      |-> {"AddBalance", "SubBalance", "SetNonce", "SetCode", "Suicide", "CreateAccount"},
+           Storage       |-> {"SetState", "CreateAccount"},
            Logs          |-> {"AddLog"},
            Refund        |-> {"AddRefund", "SubRefund"},
            Validators    |-> {"CreateValidator", "UpdateValidator", "RemoveValidator", "UpdateDelegation"},
            Stats         |-> {"CreateValidator", "UpdateValidator", "RemoveValidator", "UpdateDelegation"},
            Index         |-> {"CreateValidator", "RemoveValidator"},
            WithdrawQueue |-> {"AddWithdraw", "RemoveWithdraw"},
-           Delegations   |-> {"UpdateDelegation"},
-           Roots         |-> {"AddBalance", "SubBalance", "SetNonce", "SetCode", "SetState", "CreateValidator", "UpdateValidator",
+           Delegations   |-> {"UpdateDelegation", "CreateAccount"},
+           Roots         |-> {"AddBalance", "SubBalance", "SetNonce", "SetCode", "SetState", "Suicide", "CreateAccount", "CreateValidator", "UpdateValidator",
                               "RemoveValidator", "UpdateDelegation", "AddWithdraw", "RemoveWithdraw", "AddStakingRecord"},
            NoPanic       |-> {"Snapshot", "Finalise", "Revert"} ]
 Clauses == DOMAIN Touch
@@ -43,7 +43,7 @@ AcctView(o, fs) == [a \in DOMAIN o.accts |-> [f \in fs |-> o.accts[a][f]]]
 
 \* each clause restates one observable of the statement: "equal to what it was when the snapshot was taken"
 Holds(c, e, s) ==
-   CASE c = "Accounts"      -> AcctView(e.obs, {"exists", "bal", "nonce", "code"}) = AcctView(s.obs, {"exists", "bal", "nonce", "code"})
+   CASE c = "Accounts"      -> AcctView(e.obs, {"exists", "sui", "bal", "nonce", "code"}) = AcctView(s.obs, {"exists", "sui", "bal", "nonce", "code"})
      [] c = "Storage"       -> AcctView(e.obs, {"s1", "s2"}) = AcctView(s.obs, {"s1", "s2"})
      [] c = "Logs"          -> e.obs.logs = s.obs.logs
      [] c = "Refund"        -> e.obs.refund = s.obs.refund
